@@ -221,7 +221,7 @@ func parent(prop string, scs []Scenario) {
 	r := evid.New(prop)
 	dl := deadline()
 	allFP := map[uint64]struct{}{}
-	var totalConflicting, totalPruned, maxThreads, maxPoints int
+	var totalConflicting, totalPruned, totalCut, maxThreads, maxPoints int
 	var steps int64
 	boundDone := map[string]int{}
 	outcomesPer := map[string]map[string]int{}
@@ -271,8 +271,9 @@ func parent(prop string, scs []Scenario) {
 			e.MaxExec = sc.MaxExec
 			nw := evid.Workers()
 			var frontier []vrt.Item
-			if sc.Sequential || bound == 0 {
-				e.DFS([]vrt.Item{{}})
+			if sc.Sequential {
+				e.NoPrune = true
+				e.RunItem(vrt.Item{}) // the default schedule only
 			} else {
 				frontier = e.Frontier(nw * 8)
 			}
@@ -303,6 +304,7 @@ func parent(prop string, scs []Scenario) {
 		steps += int64(merged.Steps)
 		totalConflicting += merged.Conflicting
 		totalPruned += merged.Pruned
+		totalCut += merged.Cut
 		if merged.MaxThreads > maxThreads {
 			maxThreads = merged.MaxThreads
 		}
@@ -362,6 +364,7 @@ func parent(prop string, scs []Scenario) {
 	r.AddTraces(r.Evaluations())
 	r.Set("scheduling_steps", steps)
 	r.Set("pruned_by_fingerprint", totalPruned)
+	r.Set("executions_cut_at_known_state", totalCut)
 	r.Set("executions_with_conflicting_threads", totalConflicting)
 	r.Set("max_threads", maxThreads)
 	r.Set("max_choice_points_per_execution", maxPoints)
@@ -382,6 +385,7 @@ func trimZeros(c []int) []int {
 func mergeRes(dst *vrt.Result, src vrt.Result) {
 	dst.Executions += src.Executions
 	dst.Pruned += src.Pruned
+	dst.Cut += src.Cut
 	dst.Steps += src.Steps
 	dst.Conflicting += src.Conflicting
 	if src.MaxPoints > dst.MaxPoints {
